@@ -313,6 +313,8 @@ def _state(obj):
 
 
 def run_case(case, servertype=None, keep=False):
+    if case.get("part") == "sched":
+        return run_sched_case(case)
     from vlib import live
     from Pyro5 import errors, protocol
     servertype = servertype or case.get("servertype", "thread")
@@ -343,9 +345,7 @@ def run_case(case, servertype=None, keep=False):
         # (3) advertised metadata == what the predicate says will be served
         meta = p._pyroInvoke("get_metadata", [oid], {}, objectId="Pyro.Daemon")
         adv_methods, adv_attrs, adv_oneway = set(meta["methods"]), set(meta["attrs"]), set(meta["oneway"])
-        exp_methods = {n for n, m in resolved.items() if is_exposed(m) and m["kind"] in ("method", "static", "class")}
-        exp_attrs = {n for n, m in resolved.items() if is_exposed(m) and m["kind"].startswith("prop")}
-        exp_oneway = {n for n in exp_methods if resolved[n].get("oneway")}
+        exp_methods, exp_attrs, exp_oneway = expected_meta(resolved)
         if adv_methods != exp_methods:
             viol("metadata:methods", "advertised methods %s, served methods %s" % (sorted(adv_methods), sorted(exp_methods)))
         if adv_attrs != exp_attrs:
@@ -456,6 +456,65 @@ def run_case(case, servertype=None, keep=False):
     return V_
 
 
+def expected_meta(resolved):
+    exp_methods = {n for n, m in resolved.items() if is_exposed(m) and m["kind"] in ("method", "static", "class")}
+    exp_attrs = {n for n, m in resolved.items() if is_exposed(m) and m["kind"].startswith("prop")}
+    exp_oneway = {n for n in exp_methods if resolved[n].get("oneway")}
+    return exp_methods, exp_attrs, exp_oneway
+
+
+# ------------------------------------------------------------------------------------------------
+# concurrent first metadata requests (harness-owned schedule): every answer must already be the complete metadata
+# ------------------------------------------------------------------------------------------------
+def run_sched_trial(spec, nthreads, preempt):
+    from vlib import sched as S
+    from Pyro5 import server
+    obj, resolved = build(spec)         # a fresh class every time: nothing about it is cached yet
+    sch = S.Sched(("Pyro5/server.py",), preempt=preempt or None)
+    answers = []
+
+    def body():
+        meta = server._get_exposed_members(obj)
+        answers.append({k: set(v) for k, v in meta.items()})        # what a reply sent right now would contain
+    for i in range(nthreads):
+        sch.spawn(body, "t%d" % i)
+    sch.run()
+    out = []
+    exp = dict(zip(("methods", "attrs", "oneway"), expected_meta(resolved)))
+    if sch.deadlock or sch.overrun or sch.errors():
+        out.append(Violation("C02:harness:sched", "scheduler trouble: deadlock=%s overrun=%s errors=%r" % (sch.deadlock, sch.overrun, sch.errors())))
+    for a in answers:
+        for k in ("methods", "attrs", "oneway"):
+            if a.get(k) != exp[k]:
+                out.append(Violation("C02:metadata-under-concurrency:" + k, ("one of %d concurrent first metadata requests was answered with %s %s, the served set is %s "
+                                     "[schedule=%r spec=%s]" % (nthreads, k, sorted(a.get(k, ())), sorted(exp[k]), preempt, V.dumps(spec)))[:900]))
+                break
+    return sch, out
+
+
+def run_sched_case(case, ctx=None):
+    from vlib import sched as S
+    spec, nthreads = case["spec"], case.get("threads", 2)
+    if "preempt" in case:
+        return run_sched_trial(spec, nthreads, {int(k): v for k, v in case["preempt"].items()})[1]
+    found = []
+
+    def run_with(preempt):
+        sch, viols = run_sched_trial(spec, nthreads, preempt)
+        sch._viols = viols
+        return sch
+    n = 0
+    for preempt, sch in S.enumerate_schedules(run_with, 1, limit=case.get("limit", 150)):
+        n += 1
+        if sch._viols:
+            found = sch._viols
+            case["preempt"] = {str(k): v for k, v in preempt.items()}       # the failing schedule becomes part of the replay
+            break
+    if ctx is not None:
+        ctx.notes["schedules_run"] = ctx.notes.get("schedules_run", 0) + n
+    return found
+
+
 def _nontrivial(case):
     try:
         _obj_unused = None
@@ -501,10 +560,19 @@ def _labels(case):
 
 
 def SHARDS(tier):
-    return [{"servertype": t} for t in ("thread", "multiplex")] * (4 if tier == "quick" else 8)
+    return [{"servertype": t} for t in ("thread", "multiplex")] * (4 if tier == "quick" else 8) + [{"part": "sched"}] * (2 if tier == "quick" else 6)
+
+
+@st.composite
+def sched_case(draw):
+    return {"part": "sched", "spec": draw(spec_strategy()), "threads": draw(st.sampled_from([2, 2, 3]))}
 
 
 def run(ctx):
+    if ctx.shard.get("part") == "sched":
+        ctx.search(sched_case(), lambda c: run_sched_case(c, ctx), ctx.n(25, 200), nontrivial=lambda c: True,
+                   labels=lambda c: ["sched", "threads:%d" % c["threads"]], name="metasched", max_rounds=3)
+        return
     st_ = ctx.shard.get("servertype", "thread")
     try:
         ctx.search(case_strategy(), lambda c: run_case(c, st_, keep=True), ctx.n(150, 1500), nontrivial=_nontrivial, labels=_labels,
